@@ -60,6 +60,8 @@ def run(F, rep):
             n9 += 1
             rep.ob("C17-R9", o["instance"], o["ok"], detail=o["detail"], site=o["site"], how=o["how"], key=o["key"].replace("C19-G5", "C17-R9"))
     rep.floor("C17-R9", n9, 2, "sample-name derivation clauses shared with C19")
+    # R10: in a PanSN file the sample list is made of the header prefixes sample#haplotype (C19-G8's evaluation, shared)
+    c19.g8_rule(F, rep, "C17-R10")
 
     # ------------------------------------------------------------ R8: buffered output is flushed before success is reported
     # A BufWriter / LineWriter dropped with data still in its buffer writes it in Drop and throws the error away, so
